@@ -41,6 +41,10 @@ func c02(c *Ctx) {
 	// futures: otherwise the next entries reuse the indexes and the leader's FSM
 	// is handed the payload of the failed command (round-7 seed C02-N)
 	sDurable(c, "R12/S-DURABLE")
+	// what processLogs hands to the FSM is what GetLog returns: with a LogCache
+	// in front of the store the cache invariant (C19) is part of this property
+	// (round-8 seed C02-P: a read-through fill re-inserted a truncated entry)
+	c19p(c, "R13/C19.")
 }
 
 func c02R1(c *Ctx, rule string) {
